@@ -605,3 +605,36 @@ PROPS["C15"] = dict(
     assumptions=["wiping registers, stack copies or swap is outside the property"],
     trusted_base=TB_COMMON + ["hook: protected::verif allocator observer (feature verif_hooks), placed immediately before free()"],
 )
+
+# ---------------------------------------------------------------------------------------------- C19
+
+
+def _c19_floors(m, tier):
+    out = []
+    if len(m.cov.get("constructor", {})) < 11:
+        out.append("not all 11 sequence constructors exercised")
+    if len(m.cov.get("object_constructor", {})) < 17:
+        out.append("only %d of 17 Result-returning object constructors exercised" % len(m.cov.get("object_constructor", {})))
+    out += need(m, "fail_from_k", ["0", "1", "2"], "fault positions k")
+    if not m.cov.get("constructor_err_on_refusal") or not m.cov.get("transition_err_on_refusal"):
+        out.append("no Err result observed for a refused lock request (fault injection not effective?)")
+    if not m.cov.get("allowed_panic(no Result in signature)"):
+        out.append("clone/resize under refusal never reached")
+    return out
+
+
+PROPS["C19"] = dict(
+    level="fault_enumeration",
+    technique="runtime fault enumeration: an in-binary interposer on mlock() refuses the k-th and all later lock requests; each operation sequence is measured fault-free (n lock requests) and re-run for every k < n; oracle = no panic inside Result-returning constructors/transitions, survivors still agree with the C14 model (page rights, VM_LOCKED, VmLck, contents), nothing unwiped or locked remains after drop",
+    level_text="For every operation sequence up to depth 2 (quick) / 3 (thorough) from 11 constructors over all region lengths, for seeded random sequences with several regions alive, and for 17 Result-returning object "
+               "constructors (locked key pairs, precomputed keys, read-only variants), every fault position k is enumerated. A panic in clone/resize/Default, whose signatures cannot report an error, is an allowed outcome; "
+               "the cleanliness checks still run while unwinding.",
+    level_note="The fault is injected by defining `mlock` in the monitor executable (it forwards to the real system call when not failing), which is equivalent to an LD_PRELOAD interposer but also works under valgrind; "
+               "root ignores RLIMIT_MEMLOCK in this sandbox, so the limit itself cannot be used.",
+    runs=lambda tier: [dict(build="ni", monitor="c19")],
+    floors=_c19_floors,
+    exhaustive=True,
+    rule="a case is (operation sequence, fault position k); distinct by sequence index; the enumeration over k is exhaustive per sequence; evaluations = model-vs-kernel comparisons and outcome checks",
+    assumptions=["ENOMEM is the errno used for a refused request", "exhaustive refers to fault positions per sequence and to sequences within the depth bound"],
+    trusted_base=TB_COMMON + ["in-binary mlock interposer (harness/src/mon/prot.rs)", "Linux /proc", "hook: protected::verif allocator observer"],
+)
